@@ -190,7 +190,14 @@ func runGpromise(c *Ctx) {
 				var errVar *types.Var
 				errFromCb := false
 				completed := false
+				cleared := false
 				for i, ev := range p.Events {
+					// the identity test failed: somebody else already replaced the promise
+					if l := g.lits[i]; l != nil {
+						if ok, _ := implies([]*r2Lit{l}, fnot(eq("promise.Once.prom", promRole))); ok {
+							cleared = true
+						}
+					}
 					if callsField(ev, "promise.Once.cb") {
 						cbIdx = i
 					}
@@ -205,8 +212,16 @@ func runGpromise(c *Ctx) {
 					}
 					if (ev.Kind == core.KCall || ev.Kind == core.KEnter) && ev.Callee != nil && ev.Callee.Name() == "SetResult" {
 						completed = true
+						if errVar != nil && errFromCb {
+							if failed, _ := implies(g.litsBefore(i, false), fnot(eq(c.Role(errVar), "nil"))); failed {
+								a.note("R8", lname+"/clear-before-complete", ev.Pos, !cleared,
+									"a failed call's promise is removed from the Once before it is completed",
+									"the promise of a failed call is completed while it is still installed in the Once: a Resolve that starts in that window is handed the stale failure instead of calling the function again", p)
+							}
+						}
 					}
 					if assignsField(ev, "promise.Once.prom", "nil") {
+						cleared = true
 						want := eq("promise.Once.prom", promRole)
 						if errVar != nil {
 							want = fand(want, fnot(eq(c.Role(errVar), "nil")))
